@@ -99,6 +99,9 @@ type WOp struct {
 	Op   string `json:"op"` // write flush close reset readfrom apply
 	N    int    `json:"n,omitempty"`
 	Frag *Frag  `json:"frag,omitempty"` // readfrom source behaviour
+	// Bufio > 0: the ReadFrom source is a bufio.Reader of that size (which
+	// also implements io.WriterTo) wrapped around the simulated source.
+	Bufio int `json:"bufio,omitempty"`
 	// SrcFaults: faults of the ReadFrom source (C15)
 	SrcFaults []RFault `json:"src_faults,omitempty"`
 	Opts      *WOpts   `json:"opts,omitempty"` // apply
@@ -117,6 +120,9 @@ type WFault struct {
 type SinkPlan struct {
 	Faults []WFault `json:"faults,omitempty"`
 	Yields int      `json:"yields,omitempty"` // yields inside every call
+	// Grow: the sink also has a Grow(int) method (like *bytes.Buffer); what is
+	// asked of it is recorded.
+	Grow bool `json:"grow,omitempty"`
 }
 
 // WScript is a Writer client.
@@ -228,6 +234,9 @@ type Source struct {
 	// Bufio > 0: the Reader is given a bufio.Reader of that buffer size wrapped
 	// around the simulated source (a common source type with extra methods).
 	Bufio int `json:"bufio,omitempty"`
+	// Seeker: the source handed to the Reader also implements io.Seeker
+	// (like *bytes.Reader and *os.File).
+	Seeker bool `json:"seeker,omitempty"`
 }
 
 // ROp is one call on a Reader.
